@@ -295,7 +295,14 @@ lzma_decode(void *coder_ptr, lzma_dict *restrict dictptr,
 	// EOPM is always required (not just allowed) when
 	// the uncompressed size isn't known. When uncompressed size
 	// is known, eopm_is_valid may be set to true later.
-	bool eopm_is_valid = coder->uncompressed_size == LZMA_VLI_UNKNOWN;
+	//
+	// If all output has already been produced and we are resuming in the
+	// middle of a symbol, that symbol was started after the check at
+	// SEQ_IS_MATCH had allowed EOPM during an earlier call.
+	bool eopm_is_valid = coder->uncompressed_size == LZMA_VLI_UNKNOWN
+			|| (coder->uncompressed_size == 0 && coder->allow_eopm
+				&& coder->sequence != SEQ_NORMALIZE
+				&& coder->sequence != SEQ_IS_MATCH);
 
 	// If uncompressed size is known and there is enough output space
 	// to decode all the data, limit the available buffer space so that
